@@ -1,7 +1,7 @@
 (* Well-formedness through the service path, part 2: seat_current. *)
 From GM Require Import Base.Prelude Base.Outcome Codec.Packets Codec.Settings Engine.Model
   EngineProofs.AssocLemmas EngineProofs.PacketIds EngineProofs.WFLemmas EngineProofs.WFDefs EngineProofs.WFCore
-  EngineProofs.WFComplete EngineProofs.WFClose EngineProofs.WFService.
+  EngineProofs.WFComplete EngineProofs.WFClose EngineProofs.WFService EngineProofs.WFTrack.
 From Coq Require Import Sorting.Sorted.
 From RecordUpdate Require Import RecordSet.
 Import RecordSetNotations.
@@ -117,20 +117,25 @@ Section Seat.
 
   Definition seat_post (m : bool) (s : state) (acc : bytes) (r : seat enc dec ores ires) : Prop :=
     match r with
-    | SeatStop r => cinv HC (sr_s r) /\
+    | SeatStop r => cinv HC (sr_s r) /\ (TR s -> TR (sr_s r)) /\
         (forall site, sr_out r <> Panic site) /\ WFS (sr_s r) /\ (sr_out r = Ok tt -> sr_s r = s) /\ sr_bytes r = acc /\
         (s_st (sr_s r) = s_st s \/ s_st s = PendingDisconnect)
     | SeatContinue s' dn' =>
-        cinv HC s' /\ WFS s' /\ s_cur s' = None /\ exists id,
+        cinv HC s' /\ (TR s -> TR s') /\ WFS s' /\ s_cur s' = None /\ exists id,
           (getop s id = None /\ seat_keep s' = seat_keep s /\ dq_rel m s s' id /\ s_ops s' = s_ops s /\ s_enc s' = s_enc s) \/
           (exists s4, seated m s s4 id /\ frame_c [id] s4 s' /\ s_cur s4 = None /\ W9 cfg s' /\ getop s' id = None)
-    | SeatEncode s' => cinv HC s' /\ WFS s' /\ exists id, seated m s s' id /\ s_cur s' = Some id /\ s_enc s' <> None
+    | SeatEncode s' => cinv HC s' /\ (TR s -> TR s') /\ WFS s' /\ exists id, seated m s s' id /\ s_cur s' = Some id /\ s_enc s' <> None
     end.
 
   Lemma cinv_set (s s' : state) :
     cinv HC s -> s_dec s' = s_dec s -> s_ires s' = s_ires s -> ores_inv HC (s_ores s') ->
     (forall e, s_enc s' = Some e -> enc_inv HC e) -> cinv HC s'.
   Proof. intros (A & B & C & D) E1 E2 E3 E4. unfold cinv. rewrite E1, E2. tauto. Qed.
+
+  Lemma TR_same (s s' : state) :
+    s_ops s' = s_ops s -> s_uq s' = s_uq s -> s_rq s' = s_rq s -> s_hq s' = s_hq s -> s_cur s' = s_cur s ->
+    s_pwco s' = s_pwco s -> TR s -> TR s'.
+  Proof. intros E1 E2 E3 E4 E5 E6. apply TR_queues; [exact E1|]. unfold inQ. rewrite E2, E3, E4, E5, E6. tauto. Qed.
 
   (* all fields but the outbound resolver *)
   Definition but_ores (s : state) :=
@@ -196,9 +201,10 @@ Section Seat.
   Lemma seat_tail_spec (m : bool) (s s3 : state) id o' acc dn :
     WFS s3 -> s_cur s3 = Some id -> getop s3 id = Some o' -> seated m s s3 id -> W9 cfg s3 ->
     (s_settings s3 <> None \/ (is_connect (op_packet o') = true /\ op_pubrel o' = None)) -> cinv HC s3 ->
+    (TR s -> TR s3) ->
     seat_post m s acc (seat_tail s3 id o' acc dn).
   Proof.
-    intros HW Hc Hid Hsd H9 Hv HI. unfold seat_tail. pose proof HI as (HIe & HId & HIo & HIi).
+    intros HW Hc Hid Hsd H9 Hv HI HT3. unfold seat_tail. pose proof HI as (HIe & HId & HIo & HIi).
     assert (Hst3 : s_st s3 = s_st s) by (destruct Hsd as [K _ _ _ _]; unfold seat_keep in K; repeat (apply pair_equal_spec in K; destruct K as [K ?]); congruence).
     set (packet := match op_pubrel o' with Some pr => pr | None => op_packet o' end).
     (* the resolution step only touches the resolver *)
@@ -221,6 +227,9 @@ Section Seat.
     assert (HI4 : cinv HC s4).
     { pose proof Hres as Hb. unfold but_ores in Hb. repeat (apply pair_equal_spec in Hb; destruct Hb as [Hb ?]).
       apply (cinv_set s3 s4 HI); try congruence. replace (s_enc s4) with (s_enc s3) by congruence. exact HIe. }
+    assert (HT4 : TR s -> TR s4).
+    { intros T. pose proof Hres as Hb. unfold but_ores in Hb. repeat (apply pair_equal_spec in Hb; destruct Hb as [Hb ?]).
+      apply (TR_same s3 s4); try congruence. auto. }
     assert (Hc4 : core_of s4 = core_of s3) by (apply core_but_ores; exact Hres).
     assert (HW4 : WFS s4) by (unfold WFS, WFSx; rewrite Hc4; exact HW).
     pose proof (seated_ores m s s3 s4 id Hsd Hres) as Hsd4.
@@ -231,8 +240,9 @@ Section Seat.
     - (* validated: reset the encoder *)
       destruct (co_enc_reset HC (cf_version cfg) packet r) as (Hnpe & Hinve).
       destruct (enc_reset (cf_version cfg) packet r) as [e|k|site] eqn:Ee.
-      + cbn. split; [|split; [exact HW4|]].
+      + cbn. split; [|split; [|split; [exact HW4|]]].
         { destruct HI4 as (_ & B4 & C4 & D4). unfold cinv. cbn. splits; auto. intros e0 He0. inversion He0; subst. apply Hinve. reflexivity. }
+        { intros T. apply (TR_same s4); try reflexivity. auto. }
         exists id. split; [|split; [cbn; congruence|cbn; discriminate]].
         eapply seated_xfer; [exact Hsd4| | | | |]; reflexivity.
       + cbn. splits; auto; [intros; discriminate|discriminate|left; congruence].
@@ -249,6 +259,9 @@ Section Seat.
       assert (HI4' : cinv HC s4').
       { pose proof Hb' as Hb. unfold but_ores in Hb. repeat (apply pair_equal_spec in Hb; destruct Hb as [Hb ?]).
         apply (cinv_set s4 s4' HI4); try congruence. replace (s_enc s4') with (s_enc s4) by congruence. apply HI4. }
+      assert (HT4' : TR s -> TR s4').
+      { intros T. pose proof Hb' as Hb. unfold but_ores in Hb. repeat (apply pair_equal_spec in Hb; destruct Hb as [Hb ?]).
+        apply (TR_same s4 s4'); try congruence. auto. }
       assert (Hc4' : core_of s4' = core_of s4) by (apply core_but_ores; exact Hb').
       pose proof (seated_ores m s s4 s4' id Hsd4 Hb') as Hsd4'.
       assert (Hf4' : s_cur s4' = s_cur s4 /\ s_ops s4' = s_ops s4 /\ s_st s4' = s_st s4 /\ s_ss_count s4' = s_ss_count s4).
@@ -272,8 +285,14 @@ Section Seat.
         - intros i o [<-|[]] Hi. unfold getop in Hgone. unfold gop in Hi. cbn in Hi. congruence. }
       assert (HIf : cinv HC (r_s rf)).
       { eapply cinv_comp; [|exact HI4']. rewrite (rest_comp _ _ (fc_rest _ _ _ (fs_frame _ _ _ _ _ F))). reflexivity. }
+      assert (HTf : TR s -> TR (r_s rf)).
+      { intros T. apply (TR_gen s4' _ (HT4' T)). intros i o0 Hi Hp. right. exists o0.
+        pose proof (fc_sub _ _ _ (fs_frame _ _ _ _ _ F) _ _ Hi) as HiX. split; [exact HiX|]. splits; auto.
+        destruct (rest_fields _ _ (fc_rest _ _ _ (fs_frame _ _ _ _ _ F))) as (R1 & R2 & R3 & R4 & R5 & _).
+        unfold inQ. rewrite R1, R2, R3, R4, R5. cbn. rewrite G2, F2, Hc. intros [Q|[Q|[Q|[Q|Q]]]]; try tauto.
+        inversion Q; subst i. congruence. }
       destruct (r_out rf) as [u|k'|site] eqn:Eo.
-      + cbn. split; [exact HIf|]. split; [exact HWf|]. split.
+      + cbn. split; [exact HIf|]. split; [exact HTf|]. split; [exact HWf|]. split.
         * destruct (rest_fields _ _ (fc_rest _ _ _ (fs_frame _ _ _ _ _ F))) as (_ & _ & _ & R4 & _). rewrite R4. reflexivity.
         * exists id. right. exists sX. split; [|split; [apply F|split; [reflexivity|split; [apply F|exact Hgone]]]].
           eapply seated_xfer; [exact Hsd4'| | | | |]; reflexivity.
@@ -342,12 +361,19 @@ Section Seat.
           intuition (try (match goal with H : Some _ = Some _ |- _ => inversion H; subst end); auto).
       - intros i Hi. left. destruct D as [(D1 & D2 & D3)|(D0 & D1 & D2 & _)]; [rewrite D1; right; exact Hi|rewrite D2 in Hi; destruct Hi].
       - rewrite B9. auto. }
+    assert (HT2 : TR s -> TR s2).
+    { apply TR_queues; [exact B2|]. unfold inQ. cbn. rewrite Hcur, B9. intros i Qi _.
+      destruct D as [(D1 & D2 & D3)|(D0 & D1 & D2 & [(D3 & D4)|(D3 & D4)])]; rewrite ?D1, ?D2, ?D3, ?D4 in *; cbn in Qi;
+        intuition (subst; auto; try discriminate). }
     assert (HI2 : cinv HC s2).
     { eapply cinv_comp; [|exact HI]. unfold comp_of. cbn. pose proof B as Bt. unfold but_queues in Bt. tuple_eqs Bt. congruence. }
     cbv zeta. fold s2.
     destruct (op_exists s2 id) eqn:Eex; cbn [negb].
     2:{ (* stale id: skip *)
-        cbn. split; [exact HI2|]. split; [|split; [reflexivity|]].
+        cbn. split; [exact HI2|]. split; [|split; [|split; [reflexivity|]]].
+        { intros T. apply (TR_queues s2); [reflexivity| |exact (HT2 T)]. unfold inQ. cbn. intros i [Qi|[Qi|[Qi|[Qi|Qi]]]] Hk; try tauto.
+          inversion Qi; subst i. exfalso. unfold op_exists in Eex. cbn in Eex, Hk. apply in_keys_lookup in Hk. destruct Hk as (v & Hv0).
+          rewrite Hv0 in Eex. discriminate. }
         - eapply WFS_queues; [exact HW2| | | | | | | | | | |]; cbn; auto; try tauto.
           + core_cbn. cbn. intros p i o Hi Hp T. destruct T as [T|[T|[T|[T|T]]]]; try tauto.
             inversion T; subst i. unfold op_exists in Eex. unfold getop in Hi. cbn in Hi, Eex. rewrite Hi in Eex. discriminate.
@@ -365,6 +391,16 @@ Section Seat.
     unfold getop in Ho'. rewrite Ho'.
     assert (HI3 : cinv HC s3).
     { eapply cinv_comp; [|exact HI2]. unfold comp_of. pose proof Baq as Bt. unfold but_aq in Bt. tuple_eqs Bt. congruence. }
+    assert (HT3 : TR s -> TR s3).
+    { intros T. apply (TR_gen s2 _ (HT2 T)). intros i o1 Hi Hp. right.
+      pose proof Baq as Bt. unfold but_aq in Bt. tuple_eqs Bt.
+      assert (Hq : inQ s2 i -> inQ s3 i) by (unfold inQ; intros Qi; repeat match goal with E : _ s3 = _ s2 |- _ => rewrite E; clear E end; exact Qi).
+      destruct (N.eq_dec i id) as [->|Hne].
+      - unfold getop in Hi. assert (o1 = o') by congruence. subst o1. destruct Hrel as (R1 & R2 & R3 & R4 & R5 & R6 & R7 & R8).
+        destruct (needs_pid (op_packet o)) eqn:En.
+        + exfalso. apply Hbound; [congruence|exact Hp].
+        + rewrite (R8 eq_refl) in *. exists o. splits; auto.
+      - exists o1. rewrite <- (Hother i Hne). splits; auto. }
     unfold but_aq in Baq. tuple_eqs Baq. unfold s2 in *. cbn in *.
     assert (Hsd : seated m s s3 id).
     { constructor.
